@@ -24,8 +24,16 @@ func main() {
 	known := flag.String("known", "/verif/known_findings.jsonl", "known findings file")
 	replay := flag.String("replay", "", "replay one saved case")
 	cpuprof := flag.String("cpuprofile", "", "write a CPU profile")
+	freeze := flag.String("freeze-world", "", "write a frozen honest case (for the fuzz targets) and exit")
 	flag.Parse()
 	debug.SetGCPercent(400)
+	if *freeze != "" {
+		if err := freezeWorld(*freeze); err != nil {
+			fmt.Println(err)
+			os.Exit(2)
+		}
+		return
+	}
 
 	// The library logs to stdout through a global logger; keep our stdout clean by
 	// pointing fd 1 at /dev/null for the library and writing our lines to the saved fd.
